@@ -18,7 +18,7 @@
 (* mutated, tables, nondeterministic, history (C15); drift (diagnostic:    *)
 (* the implementation-shaped expectations new/set/decoded-state).          *)
 (***************************************************************************)
-EXTENDS TraceBase, Objects
+EXTENDS TraceBase, Objects, Decoder
 
 VARIABLES prev, ptab, cur      \* previous snapshots, previous tables digest, current history id
 
@@ -61,13 +61,29 @@ DecodeVerdict(ev) ==
           THEN "drift:decoded state of '" \o ev.op.s \o "'"
      ELSE "ok"
 
+\* second Decode into a used receiver: object xor error (C12); everything else is compared with the
+\* operational model only (MODEL-DRIFT)
+Decode2Verdict(ev) ==
+  LET r == prev["r"]
+      y == ev.snaps["y"]
+  IN IF ev.panic # "" THEN "panic:Decode into a used receiver panicked on '" \o ev.op.s \o "'"
+     ELSE IF y.nil = ev.ok THEN "fabricated:Decode of '" \o ev.op.s \o "' into a used receiver returned " \o (IF ev.ok THEN "neither object nor error" ELSE "both an object and an error")
+     ELSE IF r.nil \/ ~SnapOk(r) THEN "ok"
+     ELSE LET o == ObjOf(r)
+              m == DecodeFrom(r.fam, r.lvl, [names |-> o.names, f |-> o.f], o.ver, ev.op.s)
+          IN IF m.ok # ev.ok THEN "drift:reused receiver: the operational model " \o (IF m.ok THEN "accepts" ELSE "rejects") \o " '" \o ev.op.s \o "'"
+             ELSE IF ~ev.ok /\ ev.sent # <<m.err>> THEN "drift:reused receiver: error kind for '" \o ev.op.s \o "'"
+             ELSE IF ev.ok /\ SnapOk(y) /\ (ObjOf(y).f # m.f \/ ObjOf(y).ver # m.ver) THEN "drift:reused receiver: decoded state of '" \o ev.op.s \o "'"
+             ELSE "ok"
+
 StepVerdict(ev) ==
   CASE ev.op.op = "query" -> QueryVerdict(ev)
+    [] ev.op.op = "decode2" -> Decode2Verdict(ev)
     [] ev.op.op = "decode" -> DecodeVerdict(ev)
     [] ev.op.op = "new" -> (IF ev.panic # "" THEN "panic:constructor"
                             ELSE IF ObjOf(ev.snaps["r"]) # Fresh(ev.snaps["r"].fam, ev.snaps["r"].lvl) THEN "drift:constructor state" ELSE "ok")
     [] ev.op.op = "nil" -> (IF ev.snaps["r"].nil THEN "ok" ELSE "harness:nil receiver")
-    [] ev.op.op = "set" -> (IF ev.panic # "" THEN "harness:set panicked" ELSE "ok")
+    [] ev.op.op \in {"set", "setgroup"} -> (IF ev.panic # "" THEN "harness:set panicked" ELSE "ok")
     [] OTHER -> "harness:unknown op"
 
 \* which verdict kinds count for the property being checked
